@@ -79,6 +79,10 @@ def run_rounds(sc, root, helper):
                      for k, n in (("newOrder", 0), ("challenge", 1), ("finalize", 1), ("newAccount", 0))]
             opts["nonce_on_get"] = False
         opts["eab_keys"] = {"kid-1": EAB_KEY}
+        if sc["mode"] == "staggered":
+            # attempts start one after the other, and every directory answer but the first takes its time:
+            # a sibling completes POSTs (consuming nonces) while another attempt's directory request is open
+            rules = [{"kind": "directory", "from": 1, "times": 10 ** 6, "answer": {"process": True, "delay_ms": 350}}]
         ca = mockca.MockCA(helper, rules=rules, opts=opts)
         ca.o["delay_ms"] = 0
         ca.rand_delay = sc["delay"]
@@ -124,7 +128,8 @@ def run_rounds(sc, root, helper):
                         os.remove(os.path.join(cdir, fn))
             marks = [len(ca.log) for ca in cas]
             cfg_path = write_cfg(d, sc, cas, contacts, kt, eab=what in ("first-with-binding", "binding-added"))
-            res = vlib.probe([{"op": "concurrent_attempts", "path": cfg_path, "threads": sc["threads"],
+            stagger = [120 * k for k in range(sc["ncert"])] if sc["mode"] == "staggered" else []
+            res = vlib.probe([{"op": "concurrent_attempts", "path": cfg_path, "threads": sc["threads"], "stagger_ms": stagger,
                                "timeout_ms": 60000, "max_ms": 600000}], timeout=700)[0]
             rounds.append({"what": what, "res": res, "index": len(rounds),
                            "ca_logs": [ca.log[m:] for ca, m in zip(cas, marks)]})
@@ -219,8 +224,13 @@ def run(ctx):
     shutil.rmtree(root, ignore_errors=True)
     try:
         n = 18 if ctx.quick() else 400
-        modes = ["first", "forgotten", "changes", "dropped", "binding"]
-        scs = [build_scenario(ctx.rng, i, modes[i % 5]) for i in range(n)]
+        modes = ["first", "forgotten", "changes", "dropped", "binding", "staggered"]
+        scs = [build_scenario(ctx.rng, i, modes[i % 6]) for i in range(n)]
+        for sc in scs:
+            if sc["mode"] == "staggered":      # everybody on ONE endpoint
+                sc["nep"] = 1
+                for c in sc["certs"]:
+                    c["endpoint"] = "ep0"
         with concurrent.futures.ThreadPoolExecutor(max_workers=6) as ex:
             all_rounds = list(ex.map(lambda sc: run_rounds(sc, root, helper), scs))
         for sc, rounds in zip(scs, all_rounds):
